@@ -20,8 +20,10 @@ enum Kind {
     Consume2,
     SendOnStart,
     SendOnEnd,
+    /// event_end of the 1 s event wakes a task of the module, which sends a message
+    WakeOnEnd,
 }
-const KINDS: [Kind; 6] = [Kind::Pass, Kind::Modify, Kind::Consume1, Kind::Consume2, Kind::SendOnStart, Kind::SendOnEnd];
+const KINDS: [Kind; 7] = [Kind::Pass, Kind::Modify, Kind::Consume1, Kind::Consume2, Kind::SendOnStart, Kind::SendOnEnd, Kind::WakeOnEnd];
 
 fn at_one_second() -> bool {
     SimTime::now() == SimTime::from_duration(Duration::from_secs(1))
@@ -31,6 +33,7 @@ struct Pe {
     idx: usize,
     kind: Kind,
     log: Log,
+    wake: Arc<tokio::sync::Notify>,
 }
 impl ProcessingElement for Pe {
     fn event_start(&mut self) {
@@ -43,6 +46,9 @@ impl ProcessingElement for Pe {
         self.log.lock().unwrap().push(format!("e{}", self.idx));
         if self.kind == Kind::SendOnEnd && at_one_second() {
             send(Message::default().kind(60 + self.idx as u16), "out");
+        }
+        if self.kind == Kind::WakeOnEnd && at_one_second() {
+            self.wake.notify_one();
         }
     }
     fn incoming(&mut self, mut m: Message) -> Option<Message> {
@@ -70,6 +76,7 @@ struct M {
     /// 3 three start stages, the first requests a shutdown, 4 two start stages, the first requests a restart 1 s later
     ending: u8,
     inc: u32,
+    wake: Arc<tokio::sync::Notify>,
 }
 impl Module for M {
     fn num_sim_start_stages(&self) -> usize {
@@ -108,6 +115,17 @@ impl Module for M {
             des::time::sleep(Duration::from_secs(3)).await;
             l.lock().unwrap().push("H:task".into());
         });
+        if self.ending <= 2 {
+            // woken by an element's event_end (several wake-ups of one event coalesce)
+            let (l, w) = (self.log.clone(), self.wake.clone());
+            tokio::spawn(async move {
+                loop {
+                    w.notified().await;
+                    l.lock().unwrap().push("H:woken".into());
+                    send(Message::default().kind(70), "out");
+                }
+            });
+        }
         if self.ending == 1 {
             current().join(tokio::spawn(std::future::pending::<()>()));
         }
@@ -140,12 +158,12 @@ impl Module for M {
         if self.bulk {
             let mut own = ProcessingStack::default();
             for (k, kind) in self.local.iter().enumerate() {
-                own.append(Pe { idx: self.base + k, kind: *kind, log: self.log.clone() });
+                own.append(Pe { idx: self.base + k, kind: *kind, log: self.log.clone(), wake: self.wake.clone() });
             }
             s.append(own);
         } else {
             for (k, kind) in self.local.iter().enumerate() {
-                s.append(Pe { idx: self.base + k, kind: *kind, log: self.log.clone() });
+                s.append(Pe { idx: self.base + k, kind: *kind, log: self.log.clone(), wake: self.wake.clone() });
             }
         }
         s
@@ -186,15 +204,16 @@ fn run_case(c: &Case) -> Result<u64, String> {
         let c = c2;
         let log: Log = Default::default();
         let mut sim = Sim::new(());
-        let (gg, lg) = (c.global.clone(), log.clone());
+        let wake: Arc<tokio::sync::Notify> = Default::default();
+        let (gg, lg, wk) = (c.global.clone(), log.clone(), wake.clone());
         sim.set_stack(move || {
             let mut s = ProcessingStack::default();
             for (k, kind) in gg.iter().enumerate() {
-                s.append(Pe { idx: k, kind: *kind, log: lg.clone() });
+                s.append(Pe { idx: k, kind: *kind, log: lg.clone(), wake: wk.clone() });
             }
             s
         });
-        sim.node("m", M { log: log.clone(), local: c.local.clone(), base: if c.replace { 0 } else { c.global.len() }, replace: c.replace, bulk: c.bulk, ending: c.ending, inc: 0 });
+        sim.node("m", M { log: log.clone(), local: c.local.clone(), base: if c.replace { 0 } else { c.global.len() }, replace: c.replace, bulk: c.bulk, ending: c.ending, inc: 0, wake });
         sim.node("rx", Sink { log: log.clone() });
         sim.gate("m", "out").connect(sim.gate("rx", "in"), None);
         let r = Builder::seeded(1).quiet().build(sim.freeze()).run();
@@ -313,6 +332,16 @@ fn run_case(c: &Case) -> Result<u64, String> {
                 out.push(60 + i as u16);
             }
         }
+        if sends {
+            // the task an end hook woke runs within this event, after the hooks; its messages follow theirs
+            // (tokio's Notify: the first notify_one wakes the waiter, a second one leaves one permit, further ones nothing)
+            for _ in 0..all.iter().filter(|k| **k == Kind::WakeOnEnd).count().min(2) {
+                exp.push("H:woken".into());
+            }
+            for _ in 0..all.iter().filter(|k| **k == Kind::WakeOnEnd).count().min(2) {
+                out.push(70);
+            }
+        }
         out
     };
     bracket(&mut exp, None, "H:start", false);
@@ -359,7 +388,7 @@ impl Property for C14 {
     }
     fn rule(&self, tier: Tier) -> String {
         format!(
-            "every global stack of 0..={} elements x every per-module stack of 0..={} elements (Module::stack appending to the global stack element by element or as one multi-element stack, or replacing it) over {{pass, modify id, consume kind 1, consume kind 2, send on event_start, send on event_end}}; \
+            "every global stack of 0..={} elements x every per-module stack of 0..={} elements (Module::stack appending to the global stack element by element or as one multi-element stack, or replacing it) over {{pass, modify id, consume kind 1, consume kind 2, send on event_start, send on event_end, wake a task of the module from event_end (the task runs within that event, after the hooks, also when the message was consumed, and its message follows theirs)}}; \
              the module sees a start stage, message kind 1 (during which elements and the handler send to a sink), message kind 2, a timer wake-up and tear-down (normal, with a joined task that never finished, with at_sim_end returning an error: the tear-down event is bracketed all the same); plus two start-up variants (three stages, the first requests a shutdown; two stages, the first requests a restart): whatever is delivered or skipped, the call log consists of complete, non-interleaved brackets; plus a variant whose handler arms a later self message and then emits 40 messages in one event (elements emitting on event_start / event_end around it): the sink receives everything in program order; plus a variant whose handler panics under a panic-catching stereotype (the brackets stay complete); \
              oracle: expected call log computed directly (event_start in stack order interleaved with incoming until consumed, handler iff not consumed, event_end in reverse order, brackets never interleave, emitted messages reach the sink in program order); \
              non-trivial = stack with at least 2 elements",
